@@ -60,6 +60,9 @@ CHECKS = {
  'C35': (['asan'], 'event-log monitor: refine/simplify results evaluated by mpmath vs the library input tree at assignments drawn inside the assumption set (negative, zero, integer, rational, complex points as allowed)',
          'Expressions aimed at each refine/simplify rule under 13 assumption sets per symbol; each result is judged by value at points satisfying the assumptions.',
          'Points are sampled inside each assumption set; a rule that is wrong only on a measure-zero subset not hit by the samplers is out of reach.', 'DESIGN.md 3/C35'),
+ 'C12': (['asan'], 'event-log monitor: outputs of eval_double (3 variants), eval_complex_double and evalf(53) vs 50-digit mpmath evaluation of the same tree, tolerance from a measured 53-bit model error; branch-cut arguments and complex intermediates (for the real evaluators) detected by the monitor and excluded',
+         'Numeric trees over every node type the evaluators implement, exact leaves; each evaluator output is compared with the reference and the three real evaluators with each other.',
+         'Well-conditioned trees only (model error < 1e-10); values exactly on a branch cut are not judged.', 'DESIGN.md 3/C12'),
 }
 
 def main():
